@@ -113,5 +113,61 @@ def task_core_core(ctx):
     ctx.assume_note("shape: one pair of each kind O-C, O-H, N-H, C-H, H-H; all parameters, distances and (ss|ss) symbolic")
 
 
-TASKS_QUICK = ["local_frame", "core_core"]
+def fock_inputs(padded=False):
+    from contracts.es_common import batch_description
+
+    d = batch_description(padded)
+    n = 4 * d.molsize
+    nat = len(d.flat)
+    # symmetric trial density per molecule, Hcore with upper triangle only (as built by hcore.py)
+    P = st.zeros(d.nmol, n, n)
+    Mfull = st.zeros(d.nmol, n, n)
+    for m in range(d.nmol):
+        for i in range(n):
+            for j in range(i, n):
+                P.a[m, i, j] = P.a[m, j, i] = real("P_%d_%d_%d" % (m, i, j))
+                Mfull.a[m, i, j] = real("H_%d_%d_%d" % (m, i, j))
+    M = Mfull.reshape(d.nmol, d.molsize, 4, d.molsize, 4).transpose(2, 3).reshape(d.nmol * d.molsize * d.molsize, 4, 4).clone()
+    w = st.symbolic((len(d.pairs), 10, 10), "w")
+    onec = {k: st.symbolic((nat,), k) for k in ("gss", "gpp", "gsp", "gp2", "hsp")}
+    return d, P, Mfull, M, w, onec
+
+
+def task_fock(ctx):
+    """O3: fock(P) = h + J - K/2 with the dense NDDO integral tensor unpacked from w and the one-centre table; symmetric."""
+    from spec import nddo
+
+    fn = ctx.under_contract("seqm.seqm_functions.fock:fock")
+    ctx.under_contract("seqm.seqm_functions.fock:_one_center")
+    ctx.under_contract("seqm.seqm_functions.fock:_two_center")
+    d, P, Mfull, M, w, onec = fock_inputs()
+
+    def thunk():
+        return fn(d.nmol, d.molsize, P, M, d.maskd, d.mask, d.idxi, d.idxj, w, None, onec["gss"], onec["gpp"], onec["gsp"], onec["gp2"], onec["hsp"], "AM1",
+                  None, None, None, d.Z, None, None)
+
+    ex = ctx.explore(thunk, name="fock")
+    if len(ex.paths) != 1 or ex.paths[0].raised is not None:
+        ctx.error("paths", "%r %s" % ([p.raised for p in ex.paths], ex.paths[0].notes.get("traceback", "")[-700:] if ex.paths else ""))
+        return
+    F = ex.paths[0].value
+    n = 4 * d.molsize
+    for m in range(d.nmol):
+        atoms = [a for a, (mm, i, z) in enumerate(d.flat) if mm == m]
+        loc = {a: d.flat[a][1] for a in atoms}
+        pairs = [(loc[a], loc[b]) for (a, b) in d.pairs if d.flat[a][0] == m]
+        wk = [[[w.a[k, x, y] for y in range(10)] for x in range(10)] for k, (a, b) in enumerate(d.pairs) if d.flat[a][0] == m]
+        oc = {loc[a]: (onec["gss"].a[a], onec["gsp"].a[a], onec["gpp"].a[a], onec["gp2"].a[a], onec["hsp"].a[a]) for a in atoms}
+        Pm = [[P.a[m, i, j] for j in range(n)] for i in range(n)]
+        Hm = [[Mfull.a[m, min(i, j), max(i, j)] for j in range(n)] for i in range(n)]
+        spec = nddo.fock_spec(d.molsize, Pm, Hm, pairs, wk, oc)
+        for i in range(n):
+            for j in range(n):
+                ctx.prove_eq("mol%d.F[%d,%d]=h+J-K/2" % (m, i, j), F.a[m, i, j], spec[i][j], shape="batch [OH, HH]")
+        # non-interference (C05): row m mentions only molecule m's density / Hcore and its own pairs / atoms
+    ctx.canary_eq("exchange-factor", F.a[0, 0, 4], Mfull.a[0, 0, 4])
+    ctx.assume_note("shape-bounded: batch [O-H, H-H], arbitrary symmetric densities and integral blocks; Hcore given as its upper triangle (precondition from hcore.py)")
+
+
+TASKS_QUICK = ["local_frame", "core_core", "fock"]
 TASKS_THOROUGH = TASKS_QUICK
